@@ -720,8 +720,9 @@ class Assembler:
                 inserts.append(Ins(it.head, "#[verifier::external_body]", "external_body"))
                 self.assumptions.append(f"external_body on item {path}")
             edits.append(Edit(it.head, it.head, "", "NOP", "")) if False else None
+            self.emit("\n\n")
             first = self.cur_line()
-            self.emit("\n" + self.pubify(self.render(fi, it.start, it.end, edits, inserts)) + "\n")
+            self.emit(self.pubify(self.render(fi, it.start, it.end, edits, inserts)) + "\n")
             last = self.cur_line()
             if it.kind == "const" and ("const:" + path) in self.unit.derives:
                 # an exec const with a specification is an obligation holder like a function
@@ -1085,8 +1086,9 @@ impl core::ops::BitOr for {name} {{
                 lm = e[1]
                 txt = "/*@L lemma*/ " + strip_vis(lm["sig"].rstrip()) + " /*@E*/ /*@L spec:lemma:" + lm["name"] + ":home*/" \
                     + self.spec_text(None, lm["spec"], lm["name"], "home") + "/*@E*/ /*@L lemma*/\n" + lm["body"] + "/*@E*/\n"
+                self.emit("\n\n")
                 first = self.cur_line()
-                self.emit("\n" + txt)
+                self.emit(txt)
                 last = self.cur_line()
                 self.funcs.setdefault(lm["name"], []).append({"path": "lemma:" + lm["name"], "mode": "home", "first": first, "last": last,
                                                                "props": lm["props"], "src_line": lm["line"],
